@@ -19,7 +19,7 @@ RULE = ("static mode: 1-8 snax.alloc ops over 1-3 registered memory spaces with 
         "element types i8..i64, f32, f64; the emitted arith ops are interpreted. minimalloc/auto: functions with 1-5 "
         "top-level allocs over 1-2 memories, casts, subviews, memref.casts, views of views, uses nested in scf.for/scf.if, "
         "ops returning unrelated memrefs, memrefs leaving a region through scf.yield (results of scf.if / scf.for "
-        "iter_args: finding class alias_not_followed); the Buffer list handed to the (stub) solver is read back")
+        "iter_args, F11b repaired); the Buffer list handed to the (stub) solver is read back")
 TRUSTED_BASE = [
     "Coq 8.16.1 kernel + vm_compute (no native_compute)",
     "hand model coq/Model/C11Alloc.v of StaticAllocs / AllocOpRewrite, tied by L1 (this harness)",
@@ -355,10 +355,9 @@ ALIAS_OPS = {"builtin.unrealized_conversion_cast", "memref.subview", "memref.cas
              "memref.memory_space_cast", "snax.layout_cast",
              # region ops: a memref result of scf.for aliases the corresponding init (zero trips / yielded block argument)
              "scf.for"}
-# class of the known finding F11b (= `alias_followed prog = false` in coq/Model/C11Life.v): some op makes a value
-# alias the buffer that the lifetime analysis does not follow - a memref leaving a region through its terminator
-# (scf.yield -> result of the enclosing scf.if / scf.for)
-KLASS_ESCAPE = "alias_not_followed"
+# F11b (repaired in /repo 051ab2c): a memref leaving a region through its terminator (scf.yield -> result of the
+# enclosing scf.if / scf.for) aliases the buffer; the lifetime analysis now follows the memref results of the
+# terminator's parent op, so `alias_followed` (coq/Model/C11Life.v) holds on every generated program again
 MT = "memref<4x4xi32>"
 SV = "memref<2x4xi32, strided<[4, 1]>>"
 DC = "memref<?x?xi32>"
@@ -485,16 +484,16 @@ def convert_func(func_op):
             out.append({"kind": kind, "top": top, "ops": [vid(v) for v in op.operands],
                         "res": [(vid(r), isinstance(r.type, MemRefType)) for r in op.results],
                         "alias": op.name in ALIAS_OPS, "size": size, "align": al, "mem": mem})
-            # a terminator that hands its operands to the results of the enclosing op (scf.yield in scf.if / scf.for):
-            # operand k aliases result k of the parent.  The terminator itself has no results, so the analysis has
-            # nothing to follow: the pseudo-result is recorded as not followed (memref flag false, kind KOther).
+            # a terminator nested in a region hands its operands to the results of the enclosing op (scf.yield in
+            # scf.if / scf.for / ...).  The analysis (after the repair of F11b) treats ANY operand of such a terminator
+            # as leaving through EVERY memref-typed result of the parent: one pseudo-op with the terminator's operands
+            # and the parent's memref results (followed: memref flag true); ground truth: they alias the operand.
             parent = op.parent_op()
-            if (op is not top_op and op.has_trait(IsTerminator) and parent is not None and len(op.operands) > 0
-                    and len(op.operands) == len(parent.results)):
-                for v, r in zip(op.operands, parent.results):
-                    if isinstance(r.type, MemRefType):
-                        out.append({"kind": "KOther", "top": top, "ops": [vid(v)], "res": [(vid(r), False)],
-                                    "alias": True, "size": 0, "align": 0, "mem": 0, "escape": True})
+            if op is not top_op and op.has_trait(IsTerminator) and parent is not None and len(op.operands) > 0:
+                pres = [(vid(r), True) for r in parent.results if isinstance(r.type, MemRefType)]
+                if pres:
+                    out.append({"kind": "KOther", "top": top, "ops": [vid(v) for v in op.operands], "res": pres,
+                                "alias": True, "size": 0, "align": 0, "mem": 0, "escape": True})
     return out, alloc_ops
 
 
@@ -542,15 +541,8 @@ def run_minimalloc(text, nm, mode):
             "alloc_meta": [(int(op_mem), sz) for (op_mem, sz) in [(o["mem"], o["size"]) for o in prog if o["kind"] == "KAlloc"]]}
 
 
-def alias_followed(prog):
-    """the decidable class predicate of F11b (coq/Model/C11Life.v alias_followed): every aliasing result is one the
-    analysis follows (any result of an unrealized_conversion_cast, memref-typed results of other ops)"""
-    return all(o["kind"] == "KCast" or m for o in prog if o["alias"] for (_, m) in o["res"])
-
-
-def true_use_tops(prog, alloc_index, only_followed=False):
-    """independent of the implementation: top-level indices of every op that uses the buffer or a view/cast of it.
-    only_followed: ignore the aliases of the finding class (used to decide whether a miss is explained by it)"""
+def true_use_tops(prog, alloc_index):
+    """independent of the implementation: top-level indices of every op that uses the buffer or a view/cast of it"""
     allocs = [o for o in prog if o["kind"] == "KAlloc"]
     a = allocs[alloc_index]
     vals = {a["res"][0][0]}
@@ -559,9 +551,7 @@ def true_use_tops(prog, alloc_index, only_followed=False):
         changed = False
         for o in prog:
             if o["alias"] and any(x in vals for x in o["ops"]):
-                for r, m in o["res"]:
-                    if only_followed and not (o["kind"] == "KCast" or m):
-                        continue
+                for r, _ in o["res"]:
                     if r not in vals:
                         vals.add(r)
                         changed = True
@@ -577,7 +567,7 @@ def check_life(run):
     per_mem = {}
     for k, a in enumerate(allocs):
         per_mem.setdefault(a["mem"], []).append(k)
-    spans, spans_f = {}, {}
+    spans = {}
     for m, ks in per_mem.items():
         bufs = run["problems"].get(m)
         if bufs is None or len(bufs) != len(ks):
@@ -591,15 +581,11 @@ def check_life(run):
             top, uses = true_use_tops(prog, k)
             last = max(uses) if uses else top
             spans[k] = (top, last)
-            uses_f = true_use_tops(prog, k, only_followed=True)[1]
-            last_f = max(uses_f) if uses_f else top
-            spans_f[k] = (top, last_f)
             if st != top or sz != allocs[k]["size"] or al != allocs[k]["align"]:
                 fails.append(("buffer_fields", {"alloc": k, "buffer": [st, en, sz, al]}, None))
             if en < last:
                 direct = [o["top"] for o in prog if allocs[k]["res"][0][0] in o["ops"]]
-                # inside the finding class only when the interval covers every use reachable through followed aliases
-                klass = KLASS_ESCAPE if (not alias_followed(prog) and en >= last_f) else None
+                klass = None
                 fails.append(("lifetime_misses_use", {"alloc": k, "buffer_interval": [st, en], "last_use_incl_views": last,
                                                       "last_direct_use": max(direct) if direct else None}, klass))
     # addresses: allocs in order of appearance (one inttoptr per alloc)
@@ -612,10 +598,8 @@ def check_life(run):
                 if max(s1, s2) <= min(e1, e2):   # both live at some top-level index
                     a1, a2 = run["addrs"][i], run["addrs"][j]
                     if a1 < a2 + allocs[j]["size"] and a2 < a1 + allocs[i]["size"]:
-                        (f1, g1), (f2, g2) = spans_f[i], spans_f[j]
-                        klass = KLASS_ESCAPE if (not alias_followed(prog) and not max(f1, f2) <= min(g1, g2)) else None
                         fails.append(("live_buffers_overlap", {"allocs": [i, j], "addresses": [a1, a2],
-                                                               "sizes": [allocs[i]["size"], allocs[j]["size"]], "live": [spans[i], spans[j]]}, klass))
+                                                               "sizes": [allocs[i]["size"], allocs[j]["size"]], "live": [spans[i], spans[j]]}, None))
         pos = {}
         for i, a in enumerate(allocs):
             start, cap = run["mems"][a["mem"]]
@@ -901,22 +885,15 @@ def _corr_life(ctx):
     for a in range(0, len(cases), per):
         text = ["From Snax Require Import Base.Prelude Model.C11Life.",
                 f"Definition cases : list (list aop * list (list buffer)) := {coqlist(cases[a:a + per])}.",
-                # the model computes the Buffer list of the real pass on every program; the hypotheses of the safety
-                # theorem are checked too: alloc_alone / distinct top indices always, alias_followed except on the
-                # programs of the finding class F11b (second list; must be exactly the programs with a region escape)
-                "Definition ok (c : list aop * list (list buffer)) : bool := alloc_alone (fst c) && nodup_nat (map o_top (allocs (fst c))) && "
+                # the model computes the Buffer list of the real pass on every program, and every converted program
+                # satisfies the hypotheses of the safety theorems (wf_prog: alias_followed, alloc_alone, distinct indices)
+                "Definition ok (c : list aop * list (list buffer)) : bool := wf_prog (fst c) && "
                 "list_eqb (list_eqb buffer_eqb) (map (buffers_in (fst c)) (seq 0 (length (snd c)))) (snd c).",
-                "Eval vm_compute in failing ok cases.",
-                "Eval vm_compute in failing (fun c => alias_followed (fst c)) cases."]
+                "Eval vm_compute in failing ok cases."]
 
-        def dec(lists, a=a, nhere=len(cases[a:a + per])):
-            out = [{"name": "L1:minimalloc-lifetimes", "case": meta[a + idx], "coq_case": cases[a + idx][:600]} for idx in lists[0]]
-            for idx in range(nhere):
-                if (idx in lists[1]) != meta[a + idx]["escape"]:
-                    out.append({"name": "L1:alias_followed-vs-converter", "case": meta[a + idx],
-                                "detail": "alias_followed is false exactly on programs where a memref leaves a region through its terminator"})
-            return out
-        jobs.append(("\n".join(text) + "\n", 2, dec))
+        def dec(lists, a=a):
+            return [{"name": "L1:minimalloc-lifetimes", "case": meta[a + idx], "coq_case": cases[a + idx][:600]} for idx in lists[0]]
+        jobs.append(("\n".join(text) + "\n", 1, dec))
     jobs += _shards("From Snax Require Import Base.Prelude Model.Tsl Model.C11Alloc.", "descr * descr",
                     "fun c => descr_eqb (fst c) (snd c)", dcases, dmeta, "L1:memref-descriptor", 400)
     return jobs
